@@ -1,18 +1,21 @@
 #!/bin/bash
 # usage: bin/mutant_test.sh <PROPERTY-ID> <patch.diff> [extra args for bin/check]
-# Applies a seeded change to a scratch copy of /repo's working tree (never to /repo itself), runs the quick check of
-# the property against that copy (VERIF_REPO), prints the verdict, removes the scratch copy and its build output.
+# Applies a seeded change in a scratch git worktree of /repo's HEAD (never in /repo itself), runs the check of the
+# property against that worktree (VERIF_REPO), prints the verdict, removes the worktree and its build output.
 set -u
 ID=$1; PATCH=$(readlink -f "$2"); shift 2
-S=$(mktemp -d /tmp/mut-XXXXXX)
-rsync -a --exclude target --exclude .git /repo/ "$S/"
-if ! (cd "$S" && patch -p1 --no-backup-if-mismatch -s < "$PATCH"); then echo "MUTANT-TEST $ID $PATCH: patch does not apply"; rm -rf "$S"; exit 3; fi
-cd /verif
-VERIF_REPO="$S" bin/check "$ID" "$@" > "$S.log" 2>&1
-RC=$?
-echo "MUTANT-TEST $ID $(basename $(dirname $PATCH)) rc=$RC $(grep -c '^VIOLATION' $S.log) violation lines"
-grep -E "violation class|^TOOL-ERROR|^OK|^FAIL" "$S.log" | head -8
+S=$(mktemp -d /tmp/mut-XXXXXX); rmdir "$S"
+git -C /repo worktree add --detach "$S" HEAD -q || { echo "MUTANT-TEST $ID: cannot create worktree"; exit 3; }
 KEY=$(python3 -c "import hashlib,sys;print(hashlib.sha1(sys.argv[1].encode()).hexdigest()[:10])" "$S")
-rm -rf "$S" "/verif/work/h-alt-$KEY" "/verif/work/alt-$KEY"
-mv "$S.log" "/verif/work/mutant-$ID-$(basename $(dirname $PATCH)).log" 2>/dev/null
+cleanup() { git -C /repo worktree remove --force "$S" 2>/dev/null; rm -rf "$S" "/verif/work/h-alt-$KEY" "/verif/work/alt-$KEY"; }
+trap cleanup EXIT
+if ! (cd "$S" && (git apply --3way "$PATCH" 2>/dev/null || patch -p1 --no-backup-if-mismatch -s < "$PATCH")); then
+  echo "MUTANT-TEST $ID $PATCH: patch does not apply"; exit 3; fi
+if git -C "$S" diff --name-only --diff-filter=U | grep -q .; then echo "MUTANT-TEST $ID $PATCH: merge conflict"; exit 3; fi
+cd /verif
+LOG="/verif/work/mutant-$ID-$(basename $(dirname $PATCH)).log"
+VERIF_REPO="$S" bin/check "$ID" "$@" > "$LOG" 2>&1
+RC=$?
+echo "MUTANT-TEST $ID $(basename $(dirname $PATCH)) rc=$RC $(grep -c '^VIOLATION' $LOG) violation lines"
+grep -E "violation class|^TOOL-ERROR|^OK|^FAIL" "$LOG" | head -8
 exit $RC
